@@ -213,7 +213,15 @@ impl<'a, C: KeyColl> KeySession<'a, C> {
     }
     pub fn reset(&mut self, cap: usize) {
         self.cap = cap;
-        let c = C::make(cap);
+        self.tr.pre(&format!("\"op\":\"construct\",\"cap\":{},\"out\":\"aborted\"", cap));
+        let c = match observe(0, || C::make(cap)).out {
+            Outcome::Ok(c) => c,
+            Outcome::Panic(m) => {
+                self.tr.line(&format!("\"ev\":\"op\",\"op\":\"construct\",\"cap\":{},\"out\":\"panic\",\"msg\":\"{}\"", cap, esc(&m)));
+                self.tr.end_after_fatal()
+            }
+            Outcome::Unwound(_) => unreachable!(),
+        };
         let snap = c.snap_json();
         self.c = Some(c);
         self.mine.clear();
@@ -767,34 +775,47 @@ pub fn run_sizes<C: KeyColl>(tr: &mut Trace, max: u64, seed: u64) {
     // few entries in a large arena: a big capacity hint; many entries cleared away; many expired away
     for (label, big) in [("hint", 3000usize), ("cleared", 2500), ("expired", 2500), ("hint", 40000), ("cleared", 40000)] {
         let few = 10usize;
-        let mut c = if label == "hint" { C::make(big) } else { C::make(0) };
         let mut stored = few;
-        match label {
-            "cleared" => {
-                for k in 1..=big as i32 {
-                    c.insert(inst::probe(k, 10), k, 0);
-                }
-                c.clear();
-                for k in 1..=few as i32 {
-                    c.insert(inst::probe(k, 10), k, 0);
-                }
-            }
-            "expired" => {
-                // ascending keys expiring at 1, then look-ups at time 2 remove what they meet
-                for k in 1..=big as i32 {
-                    c.insert(inst::probe(k, if k <= few as i32 { 10 } else { 1 }), k, 0);
-                }
-                for k in (1..=big as i32).step_by(3) {
-                    c.get_value(2, inst::probe(k, inst::NOEXP));
-                }
-                stored = 0; // unknown to the harness: reported by the snapshot below where there is one
-            }
-            _ => {
-                for k in 1..=few as i32 {
-                    c.insert(inst::probe(k, 10), k, 0);
-                }
-            }
+        if label == "expired" {
+            stored = 0; // unknown to the harness: reported by the snapshot below where there is one
         }
+        tr.pre(&format!("\"op\":\"build\",\"n\":{},\"out\":\"aborted\"", big));
+        let built = observe(0, || {
+            let mut c = if label == "hint" { C::make(big) } else { C::make(0) };
+            match label {
+                "cleared" => {
+                    for k in 1..=big as i32 {
+                        c.insert(inst::probe(k, 10), k, 0);
+                    }
+                    c.clear();
+                    for k in 1..=few as i32 {
+                        c.insert(inst::probe(k, 10), k, 0);
+                    }
+                }
+                "expired" => {
+                    // ascending keys expiring at 1, then look-ups at time 2 remove what they meet
+                    for k in 1..=big as i32 {
+                        c.insert(inst::probe(k, if k <= few as i32 { 10 } else { 1 }), k, 0);
+                    }
+                    for k in (1..=big as i32).step_by(3) {
+                        c.get_value(2, inst::probe(k, inst::NOEXP));
+                    }
+                }
+                _ => {
+                    for k in 1..=few as i32 {
+                        c.insert(inst::probe(k, 10), k, 0);
+                    }
+                }
+            }
+            c
+        });
+        let c = match built.out {
+            Outcome::Ok(c) => c,
+            _ => {
+                tr.line(&format!("\"ev\":\"op\",\"op\":\"build\",\"n\":{},{}", big, out_fields(&built)));
+                continue;
+            }
+        };
         let snap = c.snap_json();
         if label == "expired" {
             if snap.is_empty() {
@@ -836,10 +857,21 @@ pub fn run_sizes<C: KeyColl>(tr: &mut Trace, max: u64, seed: u64) {
             "shuffled" => rng.shuffle(&mut keys),
             _ => {}
         }
-        let mut c = C::make(0);
-        for k in &keys {
-            c.insert(inst::probe(*k, 10), *k, 0);
-        }
+        tr.pre(&format!("\"op\":\"build\",\"n\":{},\"out\":\"aborted\"", n));
+        let built = observe(0, || {
+            let mut c = C::make(0);
+            for k in &keys {
+                c.insert(inst::probe(*k, 10), *k, 0);
+            }
+            c
+        });
+        let c = match built.out {
+            Outcome::Ok(c) => c,
+            _ => {
+                tr.line(&format!("\"ev\":\"op\",\"op\":\"build\",\"n\":{},{}", n, out_fields(&built)));
+                continue;
+            }
+        };
         let desc = format!("\"op\":\"exportn\",\"n\":{},\"order\":\"{}\"", n, order);
         tr.pre(&format!("{},\"out\":\"aborted\"", desc));
         let o = observe(0, move || {
